@@ -68,12 +68,20 @@ pub enum Op {
     Storm { a: u8, n: u8 },
     /// Core::shutdown(Stopped) / shutdown_reason() (event-loop flag; must not affect time or queues)
     Shutdown { take: bool },
+    /// (Ready context) send a call that does stop!() to the slab children of this actor selected
+    /// by `cull` (bit i = i-th live child), then create `n` more with actor_in_slab! (body =
+    /// immediate init) and stop those selected by `kill` the same way: slabs with dozens of
+    /// children that shrink again
+    SlabStorm { n: u8, kill: u64, cull: u64, shape: u16, body: BodyIdx, stop_body: BodyIdx },
 }
 
 #[derive(Clone, Debug, Default)]
 pub struct Prog {
     pub bodies: Vec<Vec<Op>>,
     pub ctxs: Vec<Ctx>,
+    /// bodies `[ReturnSome]` (Prep) and `[Stop]` (Ready) shared by all SlabStorm ops (allocated
+    /// on first use)
+    pub ready_body: Option<(BodyIdx, BodyIdx)>,
 }
 
 struct Dec<'a> {
@@ -235,16 +243,17 @@ impl<'a> Dec<'a> {
         //        9 MakeRet 10 MakeFwd 11 UseRet 12 UseFwd 13 DropH 14 CloneActor 15 Owned 16 Anon
         //        17 MoveH 18 TakeH 19 MakeDropDefer 20 MakeDeferrer 21 ForgetActor 22 Kill
         //        23 Stop 24 Fail 25 ReturnSome 26 Run 27 Query 28 DropStakker 29 Storm 30 Shutdown
-        let mut w: [u32; 31] = match self.focus {
-            Focus::Neutral => [8, 1, 3, 2, 3, 1, 4, 8, 2, 3, 2, 3, 2, 3, 1, 1, 1, 2, 2, 2, 1, 1, 2, 2, 2, 3, 10, 1, 1, 1, 1],
-            Focus::Queue => [16, 4, 4, 2, 4, 1, 2, 4, 1, 1, 1, 1, 1, 2, 0, 0, 0, 1, 1, 5, 2, 0, 0, 1, 0, 2, 10, 0, 2, 0, 1],
-            Focus::Calls => [4, 0, 2, 1, 3, 0, 6, 14, 6, 2, 3, 2, 3, 2, 1, 0, 0, 1, 1, 1, 0, 0, 2, 3, 2, 6, 10, 1, 0, 0, 1],
-            Focus::Term => [3, 0, 1, 1, 2, 0, 6, 10, 4, 1, 1, 1, 1, 4, 0, 1, 0, 2, 1, 0, 0, 0, 8, 6, 6, 4, 10, 2, 0, 0, 1],
-            Focus::Own => [4, 0, 1, 1, 2, 0, 8, 6, 2, 1, 1, 1, 1, 8, 3, 5, 3, 5, 4, 0, 0, 2, 1, 2, 1, 5, 10, 2, 0, 2, 1],
-            Focus::Ret => [4, 0, 2, 2, 4, 3, 4, 8, 2, 12, 2, 8, 1, 6, 0, 0, 0, 4, 3, 0, 0, 0, 2, 2, 1, 3, 10, 0, 2, 0, 1],
-            Focus::Lazy => [8, 0, 10, 8, 4, 1, 2, 4, 1, 0, 0, 0, 0, 1, 0, 0, 0, 0, 0, 1, 0, 0, 0, 1, 0, 2, 14, 0, 0, 0, 1],
-            Focus::Time => [6, 0, 4, 4, 6, 1, 2, 4, 1, 0, 0, 0, 0, 1, 0, 0, 0, 0, 0, 0, 0, 0, 0, 1, 0, 2, 18, 1, 0, 0, 4],
-            Focus::Release => [6, 2, 2, 2, 3, 2, 5, 6, 2, 3, 3, 3, 3, 6, 4, 3, 2, 3, 3, 3, 3, 3, 2, 2, 1, 3, 10, 1, 2, 6, 1],
+        //        31 SlabStorm
+        let mut w: [u32; 32] = match self.focus {
+            Focus::Neutral => [8, 1, 3, 2, 3, 1, 4, 8, 2, 3, 2, 3, 2, 3, 1, 1, 1, 2, 2, 2, 1, 1, 2, 2, 2, 3, 10, 1, 1, 1, 1, 1],
+            Focus::Queue => [16, 4, 4, 2, 4, 1, 2, 4, 1, 1, 1, 1, 1, 2, 0, 0, 0, 1, 1, 5, 2, 0, 0, 1, 0, 2, 10, 0, 2, 0, 1, 0],
+            Focus::Calls => [4, 0, 2, 1, 3, 0, 6, 14, 6, 2, 3, 2, 3, 2, 1, 0, 0, 1, 1, 1, 0, 0, 2, 3, 2, 6, 10, 1, 0, 0, 1, 1],
+            Focus::Term => [3, 0, 1, 1, 2, 0, 6, 10, 4, 1, 1, 1, 1, 4, 0, 1, 0, 2, 1, 0, 0, 0, 8, 6, 6, 4, 10, 2, 0, 0, 1, 2],
+            Focus::Own => [4, 0, 1, 1, 2, 0, 8, 6, 2, 1, 1, 1, 1, 8, 3, 5, 3, 5, 4, 0, 0, 2, 1, 2, 1, 5, 10, 2, 0, 2, 1, 4],
+            Focus::Ret => [4, 0, 2, 2, 4, 3, 4, 8, 2, 12, 2, 8, 1, 6, 0, 0, 0, 4, 3, 0, 0, 0, 2, 2, 1, 3, 10, 0, 2, 0, 1, 0],
+            Focus::Lazy => [8, 0, 10, 8, 4, 1, 2, 4, 1, 0, 0, 0, 0, 1, 0, 0, 0, 0, 0, 1, 0, 0, 0, 1, 0, 2, 14, 0, 0, 0, 1, 0],
+            Focus::Time => [6, 0, 4, 4, 6, 1, 2, 4, 1, 0, 0, 0, 0, 1, 0, 0, 0, 0, 0, 0, 0, 0, 0, 1, 0, 2, 18, 1, 0, 0, 4, 0],
+            Focus::Release => [6, 2, 2, 2, 3, 2, 5, 6, 2, 3, 3, 3, 3, 6, 4, 3, 2, 3, 3, 3, 3, 3, 2, 2, 1, 3, 10, 1, 2, 6, 1, 2],
         };
         let core_ctx = ctx != Ctx::NoCore;
         if !core_ctx {
@@ -262,6 +271,9 @@ impl<'a> Dec<'a> {
         if ctx != Ctx::Ready && ctx != Ctx::Prep {
             w[23] = 0;
             w[24] = 0;
+        }
+        if ctx != Ctx::Ready {
+            w[31] = 0;
         }
         if ctx != Ctx::Prep {
             w[25] = 0;
@@ -370,7 +382,27 @@ impl<'a> Dec<'a> {
             27 => Op::Query { a: self.c.u8(), body: self.body(Ctx::Ready, depth + 2) },
             28 => Op::DropStakker,
             29 => Op::Storm { a: self.c.u8(), n: 1 + self.c.pick(40) as u8 },
-            _ => Op::Shutdown { take: self.c.bool() },
+            30 => Op::Shutdown { take: self.c.bool() },
+            _ => {
+                let (body, stop_body) = match self.prog.ready_body {
+                    Some(b) => b,
+                    None => {
+                        let b = self.prog.bodies.len() as BodyIdx;
+                        self.prog.bodies.push(vec![Op::ReturnSome]);
+                        self.prog.ctxs.push(Ctx::Prep);
+                        self.prog.bodies.push(vec![Op::Stop]);
+                        self.prog.ctxs.push(Ctx::Ready);
+                        self.prog.ready_body = Some((b, b + 1));
+                        (b, b + 1)
+                    }
+                };
+                let n = [3u8, 9, 17, 18, 20, 24, 33, 40][self.c.pick(8)];
+                // about three quarters of the new children die at once; about half of the
+                // survivors of earlier storms are culled
+                let kill = self.c.u64() | self.c.u64();
+                let cull = self.c.u64();
+                Op::SlabStorm { n, kill, cull, shape: self.shape_id(), body, stop_body }
+            }
         })
     }
 }
